@@ -21,5 +21,5 @@ REGISTRY = {
     'C17': {'gen': comp.gen_C17},
     'C18': {'gen': rnd.gen_C18, 'extra': rnd.extra_C18},
     'C19': {'gen': comp.gen_C19},
-    'C20': {'gen': rnd.gen_C20, 'race': True, 'env': {'HARNESS_NO_RAW': '1'}},
+    'C20': {'gen': rnd.gen_C20, 'race': True, 'env': {'HARNESS_NO_RAW': '1'}, 'extra': rnd.extra_C20},
 }
